@@ -10,6 +10,7 @@
 # information at https://github.com/ddsmt/ddSMT/blob/master/LICENSE.
 
 import io
+import os
 import typing
 
 from .nodes import Node
@@ -224,9 +225,21 @@ def write_smtlib(file: typing.TextIO, exprs: typing.List[Node]):
 
 
 def write_smtlib_to_file(filename: str, exprs: typing.List[Node]):
-    """Use ``write_smtlib`` to write to a filename."""
-    with open(filename, 'w') as file:
-        write_smtlib(file, exprs)
+    """Use ``write_smtlib`` to write to a filename.
+
+    The text is written to a temporary file next to ``filename`` which then
+    replaces ``filename`` atomically. Whoever reads ``filename`` while ddSMT
+    is running (or after it was interrupted) never sees a partial file.
+    """
+    tmpname = f'{filename}.tmp-{os.getpid()}'
+    try:
+        with open(tmpname, 'w') as file:
+            write_smtlib(file, exprs)
+    except BaseException:
+        if os.path.exists(tmpname):
+            os.unlink(tmpname)
+        raise
+    os.replace(tmpname, filename)
 
 
 def write_smtlib_to_str(exprs: typing.List[Node]):
